@@ -731,3 +731,18 @@ impl Interpreter for BytecodeInterpreter {
         &self.vm.unit_registry
     }
 }
+
+#[cfg(numbat_verif)]
+impl BytecodeInterpreter {
+    /// Raw value currently stored in the stack slot of the innermost global binding of `name`.
+    pub(crate) fn verif_global_value(&self, name: &str) -> Option<Value> {
+        let position = self.locals[0]
+            .iter()
+            .rposition(|l| l.identifiers.iter().any(|n| n == name))?;
+        self.vm.verif_stack().get(position).cloned()
+    }
+
+    pub(crate) fn verif_vm(&self) -> &Vm {
+        &self.vm
+    }
+}
